@@ -35,6 +35,8 @@ import Proofs.ResolverStaticCheck
 import Proofs.ResolverStaticMapCheck
 import Proofs.ResolverStaticMapGCheck
 import Proofs.ResolverStaticTreeCheck
+import Proofs.ResolverStaticDisCheck
+import Proofs.DataflowApprox
 import Proofs.ResolverStaticEvalR
 import Proofs.ResolverStaticExample
 
@@ -666,6 +668,142 @@ example :
       (fun i => i.args.matches (.obj [("x", .atom "5"), ("k", .atom "11")])) = some true := by decide
 
 example (nodes : List SNode) (O : Oracle) : StoreExt (storeOfNodes exNm nodes O) := storeOfNodes_ext _ _ _
+
+/-! ### run-time `disabled` controls: the refinement modulo the rendering of "no value"
+
+den writes `dnull` for every output of a disabled call ("no value"); the property text lets an
+implementation render it as null, an empty collection or a collection of nulls.  `e ≈ o`
+(`J.approx e o`) says exactly that: `o` is `e` with every `dnull` replaced by such a value, and
+everything else equal.  `≈` is a congruence for the value operations downstream of the disabled
+call, it is equality on values without `dnull`, and the model of the code renders `dnull` as JSON
+null (`J.erase`). -/
+
+/-- `dnull ≈ o` iff `o` is null, or a collection of such values (in particular an empty one). -/
+theorem approx_dnull_iff (o : J) : J.approx .dnull o = o.nullish := Proofs.Approx.approx_dnull o
+
+example : J.approx .dnull .null = true ∧ J.approx .dnull (.arr []) = true ∧ J.approx .dnull (.obj []) = true ∧
+    J.approx .dnull (.arr [.null, .null]) = true ∧ J.approx .dnull (.obj [("a", .null)]) = true ∧
+    J.approx .dnull (.atom "0") = false ∧ J.approx .dnull (.arr [.atom "0"]) = false ∧
+    J.approx (.arr [.atom "1", .dnull]) (.arr [.atom "1", .arr []]) = true ∧
+    J.approx (.arr [.atom "1", .dnull]) (.arr [.atom "2", .null]) = false ∧
+    J.approx .null (.arr []) = false := by decide
+
+theorem approx_refl (v : J) : J.approx v v = true := Proofs.Approx.approx_refl v
+
+/-- rendering every `dnull` as JSON null is one of the allowed renderings -/
+theorem approx_erase (v : J) : J.approx v (J.erase v) = true := Proofs.Approx.approx_erase v
+
+/-- where den has a value (no `dnull` inside), `≈` leaves no freedom -/
+theorem approx_is_eq_on_values (e o : J) (hc : J.clean e = true) (h : J.approx e o = true) : e = o :=
+  Proofs.Approx.approx_clean e o hc h
+
+/-- `≈` is a congruence for projection (one step at a type, through arrays and typed maps; a path) … -/
+theorem approx_project (st : StructTable) (t : Ty) (path : List String) (e o : J)
+    (h : J.approx e o = true) : J.approx (projPath st t path e) (projPath st t path o) = true :=
+  (Proofs.Approx.cong_projPath st path t).2 e o h
+
+/-- … for narrowing to a declared type … -/
+theorem approx_narrow (st : StructTable) (F : Nat) (t : Ty) (e o : J) (h : J.approx e o = true) :
+    J.approx (narrow st F t e) (narrow st F t o) = true :=
+  (Proofs.Approx.cong_narrow st F t).2 e o h
+
+/-- … for collection building (arrays, typed maps / structs: same keys, `≈` members) … -/
+theorem approx_collect (ixs : List Idx) (g g' : Idx → J) (h : ∀ ix ∈ ixs, J.approx (g ix) (g' ix) = true) :
+    J.approx (.arr (ixs.map g)) (.arr (ixs.map g')) = true ∧
+    J.approx (.obj (ixs.map fun ix => (ix.keyText, g ix))) (.obj (ixs.map fun ix => (ix.keyText, g' ix))) = true := by
+  simp only [J.approx]
+  induction ixs with
+  | nil => simp [J.approxList, J.approxFields]
+  | cons ix ixs ih =>
+    simp only [List.map_cons, J.approxList, J.approxFields, Bool.and_eq_true, beq_self_eq_true, true_and]
+    have := ih fun i hi => h i (by simp [hi])
+    exact ⟨⟨h ix (by simp), this.1⟩, h ix (by simp), this.2⟩
+
+/-- … and hence for the evaluation of every binding expression in `≈` environments. -/
+theorem approx_eval (st : StructTable) (env env' : Env) (h : Proofs.Approx.EnvApprox env env') (e : Exp) :
+    J.approx (eval st env e) (eval st env' e) = true :=
+  Proofs.Approx.approx_eval st env env' h e
+
+/-- `≈` keeps "is null-like" (so a `disabled` control / an emptiness test downstream agrees) -/
+theorem approx_nullish (e o : J) (h : J.approx e o = true) : o.nullish = e.nullish :=
+  Proofs.Approx.approx_nullish e o h
+
+/--
+THE REFINEMENT WITH RUN-TIME `disabled` CONTROLS ON PLAIN CALLS, anywhere in a call graph with
+mapped pipelines and nested map calls of statically known size (array mode): the model of the
+code delivers den's top-level outputs and, for every stage instance of den in den's order (the
+instances below a disabled call are absent on both sides), den's arguments — with every `dnull`
+rendered as JSON null.
+
+Additional hypotheses over `resolver_refines_den_mappedpipes_partial`: every literal of the
+program is null or a scalar (`Exp.clean`; what the parser produces) and the recorded outputs are
+JSON values.  NOT COVERED: `disabled` on a map call, a control that is itself an element of a split
+collection; everything not covered by `resolver_refines_den_mappedpipes_partial`.
+FULL STATEMENT aimed at: the same for every well-typed program.
+-/
+theorem resolver_refines_den_disabled_partial (P : Program) (nm : List String → String) (O : Oracle)
+    (ρ : Store) (hw : WellTypedE P) (hfix : NarrowFix P.table P.nfuel) (hext : StoreExt ρ)
+    (hO : OracleClean O)
+    (hρ : ∀ n ∈ flattenTList [] (staticProgramT P nm).2, StoreAtNode nm O ρ n)
+    (hok : treeOkList [] (staticProgramT P nm).2 = true) :
+    (J.erase (den P O).1, (den P O).2.map eraseInst) = twoPhaseT P nm ρ :=
+  twoPhaseE_eq_den_F P hw P.nfuel hfix nm O hO ρ hext hρ hok
+
+/-- … with DECIDABLE hypotheses (`h5`: for an oracle given by a finite record, a check of every
+recorded value) and the store built from the oracle and the call graph. -/
+theorem resolver_refines_den_disabled_checked (P : Program) (nm : List String → String) (O : Oracle)
+    (h1 : wellTypedEB P = true) (h2 : acyclicB P.table = true)
+    (h3 : treeOkList [] (staticProgramT P nm).2 = true)
+    (h4 : ((flattenTList [] (staticProgramT P nm).2).map fun n => nm n.path).Nodup)
+    (h5 : ∀ k v, O k = some v → J.clean v = true) :
+    (J.erase (den P O).1, (den P O).2.map eraseInst)
+      = twoPhaseT P nm (storeOfNodes nm (flattenTList [] (staticProgramT P nm).2) O) :=
+  twoPhaseE_eq_den_F P (wellTypedEB_sound P h1) P.nfuel (narrowFix_of_acyclicB P.table h2) nm O h5 _
+    (storeOfNodes_ext nm _ O) (storeOfNodes_ok nm _ O h4) h3
+
+/-- … stated with `≈`: the outputs are a rendering of den's, the instances are den's (same keys, same
+order) and each receives a rendering of den's arguments. -/
+theorem resolver_refines_den_disabled_approx (P : Program) (nm : List String → String) (O : Oracle)
+    (h1 : wellTypedEB P = true) (h2 : acyclicB P.table = true)
+    (h3 : treeOkList [] (staticProgramT P nm).2 = true)
+    (h4 : ((flattenTList [] (staticProgramT P nm).2).map fun n => nm n.path).Nodup)
+    (h5 : ∀ k v, O k = some v → J.clean v = true) :
+    let t := twoPhaseT P nm (storeOfNodes nm (flattenTList [] (staticProgramT P nm).2) O)
+    J.approx (den P O).1 t.1 = true ∧ t.2.length = (den P O).2.length ∧
+    ∀ p ∈ (den P O).2.zip t.2, p.2.key = p.1.key ∧ J.approx p.1.args p.2.args = true := by
+  have h := resolver_refines_den_disabled_checked P nm O h1 h2 h3 h4 h5
+  intro t
+  have ht : t = (J.erase (den P O).1, (den P O).2.map eraseInst) := h.symm
+  rw [ht]
+  exact ⟨Proofs.Approx.approx_erase _, by simp, zip_map_eraseInst _⟩
+
+/-- the recorded outputs of a finite history are JSON values if each recorded value is -/
+theorem oracle_clean_of_history (h : List (InstKey × J)) (hc : h.all (fun e => J.clean e.2) = true) :
+    ∀ k v, oracleOfHistory h k = some v → J.clean v = true := by
+  intro k v hv
+  simp only [oracleOfHistory, Option.map_eq_some_iff] at hv
+  obtain ⟨e, he, rfl⟩ := hv
+  exact List.all_eq_true.mp hc e (List.mem_of_find?_eq_some he)
+
+/-- non-vacuity: a mapped pipeline whose body disables a call by a per-fork output of a sibling
+stage passes the checks … -/
+example : wellTypedEB exDis = true ∧ acyclicB exDis.table = true ∧
+    treeOkList [] (staticProgramT exDis exNm).2 = true ∧
+    ((flattenTList [] (staticProgramT exDis exNm).2).map fun n => exNm n.path).Nodup ∧
+    noGuardList (staticProgramT exDis exNm).2 = false := by decide
+
+/-- … den's outputs contain `dnull` (fork 1 of `q.a`), the model renders it as null; the disabled
+instance is absent: 3 + 2 + 3 + 1 instances; the consumer inside fork 1 receives nulls -/
+example :
+    J.clean (den exDis exDisOracle).1 = false ∧
+    (den exDis exDisOracle).1.approx (twoPhaseT exDis exNm exDisStore).1 = true ∧
+    (twoPhaseT exDis exNm exDisStore).1.matches
+      (.obj [("ys", .arr [.atom "40", .atom "41", .atom "42"]), ("qa", .arr [.atom "30", .null, .atom "32"]),
+             ("r", .atom "99")]) = true ∧
+    (twoPhaseT exDis exNm exDisStore).2.length = 9 ∧ (den exDis exDisOracle).2.length = 9 ∧
+    ((twoPhaseT exDis exNm exDisStore).2.find? fun i =>
+        i.key == ⟨["TOP", "INNER", "W2"], [("INNER", .i 1)]⟩).map
+      (fun i => i.args.matches (.obj [("x", .null), ("p", .null)])) = some true := by decide
 
 /-- non-vacuity: a map call of a stage over two array literals of length 3 (constants, a pipeline
 input, upstream outputs, a struct literal next to references that are narrowed WIDE → PAIR),
